@@ -27,6 +27,7 @@ import common
 from common import Ctx, Outcome
 
 import props.c01 as c01
+import props.xml_edits as xml_edits
 import props.xml_ns as xml_ns
 
 DRIVERS = ["Xml"]
@@ -275,6 +276,55 @@ class History:
         self.model_checked: set = set()
         self.undo: list = []
         self.ns_tried: set = set()
+        self.snap: dict | None = None   # exported trees after the previous operation (edit link)
+        self.cases: list | None = None  # model requests are queued here
+        self.observe_every = 1
+        self.n_obs = 0
+
+    def export(self, visual: bool) -> dict:
+        out = {}
+        for fname, frag in self.m._loader.trees.items():
+            if fname.parts[0] != "\0":
+                continue
+            kind = frag.fragment_type.name
+            if kind == "SEMANTIC" or (visual and kind == "VISUAL"):
+                fl: set = set()
+                d = c01.export_doc(frag.root, fl)
+                if not fl:
+                    out[str(pathlib.PurePosixPath(*fname.parts[1:]))] = d
+        return out
+
+    def observe(self, desc: str) -> None:
+        """the edit link: diff the trees before / after this operation into modelled edits (harness/props/xml_edits.py)
+        and let the model check the script and the contract `okAll`"""
+        if self.cases is None:
+            return
+        self.n_obs += 1
+        if self.n_obs % self.observe_every:
+            self.snap = None
+            return
+        visual = "Diagram" in desc
+        now = self.export(visual)
+        if self.snap is not None:
+            for name, after in now.items():
+                before = self.snap.get(name)
+                if before is None or before == after:
+                    continue
+                a, b, edits, unmodelled = xml_edits.diff_doc(before, after)
+                for e in edits:
+                    self.out.hit("edit-link:" + e["edit"])
+                for u in unmodelled:
+                    self.out.hit("edit-link:unmodelled:" + u)
+                if unmodelled:
+                    self.out.disagree("edit.link", {"op": desc, "file": name}, "the API changed: " + ", ".join(sorted(set(unmodelled))),
+                                      "no modelled edit kind expresses this")
+                self.cases.append(({"op": "xml.history", "doc": a, "edits": edits, "after": b},
+                                   ("edit.link", {"op": desc, "file": name, "edits": [{k: v for k, v in e.items() if k != "kid"} for e in edits][:12]},
+                                    {"ok": True, "same": True})))
+        if self.snap is None or not visual:
+            self.snap = {**(self.snap or {}), **now} if self.snap is not None else now
+        else:
+            self.snap.update(now)
 
     def objs(self):
         """objects of the primary resource (libraries are separate, read-only resources that save() does not write)"""
@@ -327,6 +377,7 @@ class History:
             self.out.hit("op:name-boundary")
             self.log.append({"op": f"set {type(o).__name__}.name (boundary)", "arg": s})
             self.ok_since_save += 1
+            self.observe("boundary step (Diagram name, specification, name)")
         except Exception as e:  # noqa: BLE001
             self.out.hit("refused:" + type(e).__name__)
 
@@ -380,6 +431,7 @@ class History:
                     self.log.append({"op": "move function back to its old place", "arg": idx})
                 self.ok_since_save += 1
                 self.out.hit("op:undo-" + v)
+                self.observe("undo round " + v)
             except Exception as e:  # noqa: BLE001
                 self.out.hit("refused:" + type(e).__name__)
                 self.log.append({"op": "undo round " + v, "refused": type(e).__name__})
@@ -406,6 +458,7 @@ class History:
                 self.out.hit("op:spec-boundary")
                 self.log.append({"op": "set specification (boundary)", "arg": s})
                 self.ok_since_save += 1
+                self.observe("set specification (boundary)")
             except Exception as e:  # noqa: BLE001
                 self.out.hit("refused:" + type(e).__name__)
 
@@ -540,6 +593,7 @@ class History:
             self._objs = None
         self.ok_since_save += 1
         self.log.append({"op": desc, "arg": s})
+        self.observe(desc)
 
 
 def fresh_copy(ctx: Ctx, aird: pathlib.Path, tag: str) -> pathlib.Path:
@@ -640,6 +694,7 @@ def save_and_compare(h: History, path: pathlib.Path, capellambse, key, cases: li
             cases.append(({"op": "xml.parse", "s": b.decode("utf-8")},
                           ("reload.parse:" + kind, {"file": name}, {"doc": c01.export_doc(roots2[name], set())})))
     h._objs = None  # save() replaced fragment roots (update_namespaces); wrappers of old roots are stale
+    h.snap = h.export(True) if h.cases is not None and model_side else None
     return True
 
 
@@ -770,6 +825,8 @@ def run(ctx: Ctx) -> Outcome:
             except Exception as e:  # noqa: BLE001
                 raise common.InfraError(f"cannot load corpus model {label}: {e!r}") from e
             h = History(ctx, out, m, label)
+            h.cases = cases
+            h.snap = h.export(True)
             saves = 0
             # directed part 0: edit -> save -> exact inverse edit -> save, before anything else touched the trees
             big = aird.stat().st_size > 100_000 or (aird.parent / (aird.stem + ".capella")).stat().st_size > 400_000
@@ -809,6 +866,14 @@ def run(ctx: Ctx) -> Outcome:
             out.hit(stream)
             if req["op"] == "xml.updateNs":
                 xml_ns.compare_update(out, stream, case, req["doc"], want, mv)
+                continue
+            if req["op"] == "xml.history":
+                if not (isinstance(mv, dict) and mv.get("ok") is True and mv.get("same") is True):
+                    bad = mv.get("first_bad") if isinstance(mv, dict) else None
+                    what = ("the edit script does not lead to the observed tree" if isinstance(mv, dict) and mv.get("same") is False
+                            else f"edit #{bad} of the script violates the contract Edit.ok" if bad is not None else "model error")
+                    out.disagree(stream, {**case, "first_bad_edit": (case["edits"][bad] if isinstance(bad, int) and bad < len(case["edits"]) else None)},
+                                 "an observed API step", what + ": " + json.dumps(mv)[:200])
                 continue
             want = json.loads(json.dumps(want))
             if isinstance(mv, dict) and mv.get("wf") is False and want.get("wf") is False and "out" in want:
